@@ -60,6 +60,7 @@ type genCfg struct {
 	Simulate string // non-empty: -simulate num=...
 	Depth    int
 	Filter   string // name of a filter operator in RulesAlpha.tla (default FilterNone)
+	LateArrayReject bool // C11: an array verdict may be delivered late, up to the event completing the array (DESIGN 5.7)
 	CheckFwd bool // compare forwarded events with Forward(e) (C15)
 	Label    string
 }
@@ -221,6 +222,10 @@ func replayLeaf(c *Check, g genCfg, t *genTable, rp *rulesReplayer, lf genLeaf) 
 					return
 				}
 			}
+			if ok && !expectOK && lf.Why == "array" && g.LateArrayReject && drainArrayRejects(rp, evs[:j+1]) {
+				c.Note("%s: array verdict delivered later than the model's (%s)", g.Label, evsString(evs[np:j+1]))
+				return
+			}
 			what := "accepted"
 			if !ok {
 				what = fmt.Sprintf("rejected (%v)", perr)
@@ -259,4 +264,46 @@ func replayLeaf(c *Check, g genCfg, t *genTable, rp *rulesReplayer, lf genLeaf) 
 			}
 		}
 	}
+}
+
+// drainArrayRejects is called when the real validator accepted a data/chunk event that the
+// model rejects for an array reason.  It completes the current chunk with ASCII filler, closes
+// the array, the enclosing list and the document; returns true if the validator rejects
+// somewhere on the way (the verdict for the array is "reject", only later).
+func drainArrayRejects(rp *rulesReplayer, evs []AEv) bool {
+	exp, act, more, at := 0, 0, false, ""
+	for _, e := range evs {
+		switch e.M {
+		case "OnArrayBegin", "OnMediaBegin", "OnCustomBegin":
+			at = e.AT
+			exp, act, more = 0, 0, true
+		case "OnArrayChunk":
+			exp = int(atByteCount(at, uint64(e.N)))
+			act = 0
+			more = e.More
+		case "OnArrayData":
+			act += len(e.Bytes)
+		}
+	}
+	var tail []AEv
+	if act < exp {
+		d := newEv("OnArrayData")
+		for i := act; i < exp; i++ {
+			d.Bytes = append(d.Bytes, 'a')
+		}
+		tail = append(tail, d)
+	}
+	if more {
+		ch := newEv("OnArrayChunk")
+		tail = append(tail, ch)
+	}
+	tail = append(tail, newEv("OnEndContainer"), newEv("OnEndDocument"))
+	for _, e := range tail {
+		ok, _ := tryInvokeV(rp.rules, e, rp.vb)
+		rp.rec.Take()
+		if !ok {
+			return true
+		}
+	}
+	return false
 }
